@@ -254,4 +254,58 @@ def check (cf : Conf) (now : Nat) (hashes : List Hash)
       let matched := findMatch toReq recv
       (⟨.blocked matched, some q⟩, storeInCache now cf.ttl toReq (ord recv) c1)
 
+
+/-! ### filtering.DNSFilter.CheckHost in front of the two checkers
+
+`CheckHost` lower-cases the query name (dnsforward passes it as it came off
+the wire, e.g. with 0x20 case randomisation), then runs the host checkers;
+with no rewrites, hosts files, rules or blocked services configured the
+outcome is decided by `checkSafeBrowsing` and then `checkParental`, each a
+`hashprefix.Checker.Check` of the lower-cased name.  Names are ASCII
+(miekg/dns presentation format). -/
+
+structure HostSetts where
+  filtering : Bool    -- setts.FilteringEnabled (rule lists; irrelevant to the hash-prefix checks)
+  safeBrowsing : Bool
+  parental : Bool
+  protection : Bool
+  deriving DecidableEq, Repr
+
+inductive HostReason where
+  | notFiltered | safeBrowsing | parental | failed
+  deriving DecidableEq, Repr
+
+structure HostOut where
+  reason : HostReason
+  /-- question sent to the safe-browsing service, if any -/
+  sbQuestion : Option Bytes
+  /-- question sent to the parental-control service, if any -/
+  pcQuestion : Option Bytes
+  deriving DecidableEq, Repr
+
+/-- one checker with an empty cache on an already lower-cased name -/
+def checkFresh (suffix : Bytes) (H : Bytes → Hash) (psOf : Bytes → Bytes × Bool)
+    (exchange : Bytes → Option (List RR)) (name : Bytes) : Outcome :=
+  (check ⟨suffix, 0⟩ 0 (hostnameToHashes H (psOf name).1 (psOf name).2 name) exchange canonGroups (Cache.new 0)).1
+
+/-- CheckHost restricted to the hash-prefix checkers (fresh caches). -/
+def checkHostSB (st : HostSetts) (sufS sufP : Bytes) (H : Bytes → Hash) (psOf : Bytes → Bytes × Bool)
+    (exS exP : Bytes → Option (List RR)) (host : Bytes) : HostOut :=
+  if host = [] then ⟨.notFiltered, none, none⟩ else
+  let name := lower host
+  let oS : Option Outcome :=
+    if st.protection && st.safeBrowsing then some (checkFresh sufS H psOf exS name) else none
+  match oS with
+  | some ⟨.blocked true, q⟩ => ⟨.safeBrowsing, q, none⟩
+  | some ⟨.upstreamErr, q⟩ => ⟨.failed, q, none⟩
+  | _ =>
+    let sq := oS.bind (·.question)
+    let oP : Option Outcome :=
+      if st.protection && st.parental then some (checkFresh sufP H psOf exP name) else none
+    match oP with
+    | some ⟨.blocked true, q⟩ => ⟨.parental, sq, q⟩
+    | some ⟨.upstreamErr, q⟩ => ⟨.failed, sq, q⟩
+    | some ⟨_, q⟩ => ⟨.notFiltered, sq, q⟩
+    | none => ⟨.notFiltered, sq, none⟩
+
 end AGH.C19
